@@ -41,6 +41,7 @@ func (m *SimpleMovingVariance) Add(value float64) (float64, bool) {
 	m.mu.Lock()
 	defer m.mu.Unlock()
 	changed := false
+	previousVariance := m.variance.Get()
 	if m.average.seenSamples > 0 {
 		m.variance.Add(math.Pow(value-m.average.Get(), 2))
 	}
@@ -55,7 +56,7 @@ func (m *SimpleMovingVariance) Add(value float64) (float64, bool) {
 		normalized = (value - mean) / stdev
 	}
 
-	if stdev != m.stdev || normalized != m.normalized {
+	if variance != previousVariance || stdev != m.stdev || normalized != m.normalized {
 		changed = true
 	}
 	m.stdev = stdev
